@@ -18,37 +18,41 @@ const ChainID = "sao-verif"
 // declareSchemas states, per store prefix, the record type and the key it is stored under
 // ("key = keyOf(record)" is the representation invariant every Set* call site maintains; it is what
 // the genesis validators call "index"). Raw prefixes hold counters / cursors / id strings.
-func declareSchemas() {
-	sym.DeclareKeyed("order", ordertypes.OrderKey, &ordertypes.Order{}, func(o ordertypes.Order) []byte { return orderkeeper.GetOrderIDBytes(o.Id) })
-	sym.DeclareKeyed("order", ordertypes.ShardKey, &ordertypes.Shard{}, func(s ordertypes.Shard) []byte { return orderkeeper.GetShardIDBytes(s.Id) })
-	sym.DeclareRaw("order", ordertypes.OrderCountKey, 8)
-	sym.DeclareRaw("order", ordertypes.ShardCountKey, 8)
+func declareSchemas() { declareSchemasFor("") }
 
-	sym.DeclareKeyed("node", nodetypes.NodeKeyPrefix, &nodetypes.Node{}, func(n nodetypes.Node) []byte { return nodetypes.NodeKey(n.Creator) })
-	sym.DeclareKeyed("node", nodetypes.PledgeKeyPrefix, &nodetypes.Pledge{}, func(p nodetypes.Pledge) []byte { return nodetypes.PledgeKey(p.Creator) })
-	sym.DeclareKeyed("node", nodetypes.PledgeDebtKeyPrefix, &nodetypes.PledgeDebt{}, func(p nodetypes.PledgeDebt) []byte { return nodetypes.PledgeDebtKey(p.Sp) })
-	sym.DeclareKeyed("node", nodetypes.FaultIdKeyPrefix, &nodetypes.Fault{}, func(f nodetypes.Fault) []byte { return []byte(f.FaultId) })
-	sym.DeclareRawString("node", nodetypes.FaultKeyPrefix)
-	sym.DeclareRaw("node", nodetypes.NodeRoundKeyPrefix, 1)
-	sym.DeclareRawString("node", nodetypes.FishingRewardKey)
+// declareSchemasFor declares the schemas for the store family with the given name suffix ("" = the chain,
+// "2" = the empty twin that a genesis import writes into).
+func declareSchemasFor(sfx string) {
+	sym.DeclareKeyed("order"+sfx, ordertypes.OrderKey, &ordertypes.Order{}, func(o ordertypes.Order) []byte { return orderkeeper.GetOrderIDBytes(o.Id) })
+	sym.DeclareKeyed("order"+sfx, ordertypes.ShardKey, &ordertypes.Shard{}, func(s ordertypes.Shard) []byte { return orderkeeper.GetShardIDBytes(s.Id) })
+	sym.DeclareRaw("order"+sfx, ordertypes.OrderCountKey, 8)
+	sym.DeclareRaw("order"+sfx, ordertypes.ShardCountKey, 8)
 
-	sym.DeclareKeyed("model", modeltypes.MetadataKeyPrefix, &modeltypes.Metadata{}, func(m modeltypes.Metadata) []byte { return modeltypes.MetadataKey(m.DataId) })
-	sym.DeclareKeyed("model", modeltypes.ModelKeyPrefix, &modeltypes.Model{}, func(m modeltypes.Model) []byte { return modeltypes.ModelKey(m.Key) })
-	sym.DeclareKeyed("model", modeltypes.ExpiredDataKeyPrefix, &modeltypes.ExpiredData{}, func(e modeltypes.ExpiredData) []byte { return modeltypes.ExpiredDataKey(e.Height) })
+	sym.DeclareKeyed("node"+sfx, nodetypes.NodeKeyPrefix, &nodetypes.Node{}, func(n nodetypes.Node) []byte { return nodetypes.NodeKey(n.Creator) })
+	sym.DeclareKeyed("node"+sfx, nodetypes.PledgeKeyPrefix, &nodetypes.Pledge{}, func(p nodetypes.Pledge) []byte { return nodetypes.PledgeKey(p.Creator) })
+	sym.DeclareKeyed("node"+sfx, nodetypes.PledgeDebtKeyPrefix, &nodetypes.PledgeDebt{}, func(p nodetypes.PledgeDebt) []byte { return nodetypes.PledgeDebtKey(p.Sp) })
+	sym.DeclareKeyed("node"+sfx, nodetypes.FaultIdKeyPrefix, &nodetypes.Fault{}, func(f nodetypes.Fault) []byte { return []byte(f.FaultId) })
+	sym.DeclareRawString("node"+sfx, nodetypes.FaultKeyPrefix)
+	sym.DeclareRaw("node"+sfx, nodetypes.NodeRoundKeyPrefix, 1)
+	sym.DeclareRawString("node"+sfx, nodetypes.FishingRewardKey)
 
-	sym.DeclareKeyed("market", markettypes.WorkerKeyPrefix, &markettypes.Worker{}, func(w markettypes.Worker) []byte { return markettypes.WorkerKey(w.Workername) })
+	sym.DeclareKeyed("model"+sfx, modeltypes.MetadataKeyPrefix, &modeltypes.Metadata{}, func(m modeltypes.Metadata) []byte { return modeltypes.MetadataKey(m.DataId) })
+	sym.DeclareKeyed("model"+sfx, modeltypes.ModelKeyPrefix, &modeltypes.Model{}, func(m modeltypes.Model) []byte { return modeltypes.ModelKey(m.Key) })
+	sym.DeclareKeyed("model"+sfx, modeltypes.ExpiredDataKeyPrefix, &modeltypes.ExpiredData{}, func(e modeltypes.ExpiredData) []byte { return modeltypes.ExpiredDataKey(e.Height) })
 
-	sym.DeclareKeyed("sao", saotypes.TimeoutOrderKeyPrefix, &saotypes.TimeoutOrder{}, func(t saotypes.TimeoutOrder) []byte { return saotypes.TimeoutOrderKey(t.Height) })
-	sym.DeclareKeyed("sao", saotypes.ExpiredShardKeyPrefix, &saotypes.ExpiredShard{}, func(t saotypes.ExpiredShard) []byte { return saotypes.ExpiredShardKey(t.Height) })
+	sym.DeclareKeyed("market"+sfx, markettypes.WorkerKeyPrefix, &markettypes.Worker{}, func(w markettypes.Worker) []byte { return markettypes.WorkerKey(w.Workername) })
 
-	sym.DeclareKeyed("did", didtypes.PaymentAddressKeyPrefix, &didtypes.PaymentAddress{}, func(p didtypes.PaymentAddress) []byte { return didtypes.PaymentAddressKey(p.Did) })
-	sym.DeclareKeyed("did", didtypes.DidKeyPrefix, &didtypes.Did{}, func(d didtypes.Did) []byte { return didtypes.DidKey(d.AccountId) })
-	sym.DeclareKeyed("did", didtypes.DidBalancesKeyPrefix, &didtypes.DidBalances{}, func(d didtypes.DidBalances) []byte { return didtypes.DidBalancesKey(d.Did) })
-	sym.DeclareKeyed("did", didtypes.AccountListKeyPrefix, &didtypes.AccountList{}, func(d didtypes.AccountList) []byte { return didtypes.AccountListKey(d.Did) })
-	sym.DeclareKeyed("did", didtypes.AccountIdKeyPrefix, &didtypes.AccountId{}, func(d didtypes.AccountId) []byte { return didtypes.AccountIdKey(d.AccountDid) })
-	sym.DeclareKeyed("did", didtypes.AccountAuthKeyPrefix, &didtypes.AccountAuth{}, func(d didtypes.AccountAuth) []byte { return didtypes.AccountAuthKey(d.AccountDid) })
-	sym.DeclareKeyed("did", didtypes.KidKeyPrefix, &didtypes.Kid{}, func(d didtypes.Kid) []byte { return didtypes.KidKey(d.Address) })
-	sym.DeclareKeyed("did", didtypes.SidDocumentKeyPrefix, &didtypes.SidDocument{}, func(d didtypes.SidDocument) []byte { return didtypes.SidDocumentKey(d.VersionId) })
-	sym.DeclareKeyed("did", didtypes.SidDocumentVersionKeyPrefix, &didtypes.SidDocumentVersion{}, func(d didtypes.SidDocumentVersion) []byte { return didtypes.SidDocumentVersionKey(d.DocId) })
-	sym.DeclareKeyed("did", didtypes.PastSeedsKeyPrefix, &didtypes.PastSeeds{}, func(d didtypes.PastSeeds) []byte { return didtypes.PastSeedsKey(d.Did) })
+	sym.DeclareKeyed("sao"+sfx, saotypes.TimeoutOrderKeyPrefix, &saotypes.TimeoutOrder{}, func(t saotypes.TimeoutOrder) []byte { return saotypes.TimeoutOrderKey(t.Height) })
+	sym.DeclareKeyed("sao"+sfx, saotypes.ExpiredShardKeyPrefix, &saotypes.ExpiredShard{}, func(t saotypes.ExpiredShard) []byte { return saotypes.ExpiredShardKey(t.Height) })
+
+	sym.DeclareKeyed("did"+sfx, didtypes.PaymentAddressKeyPrefix, &didtypes.PaymentAddress{}, func(p didtypes.PaymentAddress) []byte { return didtypes.PaymentAddressKey(p.Did) })
+	sym.DeclareKeyed("did"+sfx, didtypes.DidKeyPrefix, &didtypes.Did{}, func(d didtypes.Did) []byte { return didtypes.DidKey(d.AccountId) })
+	sym.DeclareKeyed("did"+sfx, didtypes.DidBalancesKeyPrefix, &didtypes.DidBalances{}, func(d didtypes.DidBalances) []byte { return didtypes.DidBalancesKey(d.Did) })
+	sym.DeclareKeyed("did"+sfx, didtypes.AccountListKeyPrefix, &didtypes.AccountList{}, func(d didtypes.AccountList) []byte { return didtypes.AccountListKey(d.Did) })
+	sym.DeclareKeyed("did"+sfx, didtypes.AccountIdKeyPrefix, &didtypes.AccountId{}, func(d didtypes.AccountId) []byte { return didtypes.AccountIdKey(d.AccountDid) })
+	sym.DeclareKeyed("did"+sfx, didtypes.AccountAuthKeyPrefix, &didtypes.AccountAuth{}, func(d didtypes.AccountAuth) []byte { return didtypes.AccountAuthKey(d.AccountDid) })
+	sym.DeclareKeyed("did"+sfx, didtypes.KidKeyPrefix, &didtypes.Kid{}, func(d didtypes.Kid) []byte { return didtypes.KidKey(d.Address) })
+	sym.DeclareKeyed("did"+sfx, didtypes.SidDocumentKeyPrefix, &didtypes.SidDocument{}, func(d didtypes.SidDocument) []byte { return didtypes.SidDocumentKey(d.VersionId) })
+	sym.DeclareKeyed("did"+sfx, didtypes.SidDocumentVersionKeyPrefix, &didtypes.SidDocumentVersion{}, func(d didtypes.SidDocumentVersion) []byte { return didtypes.SidDocumentVersionKey(d.DocId) })
+	sym.DeclareKeyed("did"+sfx, didtypes.PastSeedsKeyPrefix, &didtypes.PastSeeds{}, func(d didtypes.PastSeeds) []byte { return didtypes.PastSeedsKey(d.Did) })
 }
